@@ -1,6 +1,7 @@
 package aescmac
 
 import (
+	tinkpb "github.com/tink-crypto/tink-go/v2/proto/tink_go_proto"
 	"github.com/tink-crypto/tink-go/v2/internal/verifh"
 	"github.com/tink-crypto/tink-go/v2/insecuresecretdataaccess"
 	"github.com/tink-crypto/tink-go/v2/internal/internalapi"
@@ -88,4 +89,18 @@ func VerifH_cmacmac_validate() {
 func VerifH_c19_aescmac() {
 	m, _, _, _, _ := build()
 	verifh.CheckMACNoWrite(m)
+}
+
+func VerifH_serial_aescmac() {
+	v, kind := pickVariant("variant")
+	id := verifrt.Uint32("id")
+	if kind == 3 {
+		id = 0
+	}
+	tag := 10 + verifrt.Choice("tsz", 7)
+	params, err := NewParameters(ParametersOpts{KeySizeInBytes: 32, TagSizeInBytes: tag, Variant: v})
+	verifrt.Assert(err == nil, "NewParameters")
+	k, err := NewKey(secretdata.NewBytesFromData(verifrt.Bytes("key", 32), insecuresecretdataaccess.Token{}), params, id)
+	verifrt.Assert(err == nil, "NewKey")
+	verifh.CheckKeyRoundTrip(k, &keySerializer{}, &keyParser{}, &parametersSerializer{}, &parametersParser{}, kind, id, typeURL, tinkpb.KeyData_SYMMETRIC)
 }
